@@ -38,6 +38,59 @@ def make_data(rng, kind, N):
     return x * amp, y * ampy
 
 
+class PermutedScheduler:
+    """A user-supplied scheduler callable (picklable): a built-in plan with its bins listed in another order
+    ('rev:ltf' = high to low frequency, 'rot:ltf' = rotated by a third). SpectrumAnalyzer accepts any callable returning a plan dict."""
+    def __init__(self, name):
+        self.name = name; self.__name__ = name.replace(":", "_")
+
+    def __call__(self, **args):
+        from speckit import schedulers as S
+        mode, base = self.name.split(":")
+        fn = {"lpsd": S.lpsd_plan, "ltf": S.ltf_plan, "vectorized_ltf": S.vectorized_ltf_plan, "new_ltf": S.new_ltf_plan}[base]
+        p = dict(fn(**args))
+        n = len(p["f"])
+        idx = list(range(n))[::-1] if mode == "rev" else (list(range(n // 3, n)) + list(range(n // 3)))
+        for k in ("f", "r", "b", "L", "K", "navg", "O"):
+            p[k] = np.asarray(p[k])[idx].copy()
+        D = list(p["D"]); p["D"] = [D[i] for i in idx]
+        return p
+
+
+def _permuted_scheduler(name):
+    return PermutedScheduler(name)
+
+
+def resolve_kw(kw):
+    """Analyzer keyword arguments with a 'rev:<name>' / 'rot:<name>' scheduler replaced by the callable (kw itself stays JSON-able)."""
+    if isinstance(kw.get("scheduler"), str) and ":" in kw["scheduler"]:
+        kw = dict(kw); kw["scheduler"] = _permuted_scheduler(kw["scheduler"])
+    return kw
+
+
+def plan_order_check(r, info):
+    """Per-bin statistics do not depend on where the bin is listed in the plan: compare with the built-in (ascending) plan."""
+    from speckit.analysis import SpectrumAnalyzer
+    sch = info["kw"].get("scheduler")
+    if not (isinstance(sch, str) and ":" in sch) or info["which"] != "full":
+        return []
+    kw0 = dict(info["kw"]); kw0["scheduler"] = sch.split(":")[1]
+    data = np.vstack([info["x"], info["y"]]) if info["cross"] else info["x"]
+    with np.errstate(all="ignore"):
+        r0 = SpectrumAnalyzer(data, info["fs"], **kw0).compute()
+    out = []
+    o0 = np.argsort(np.asarray(r0.f), kind="stable"); o1 = np.argsort(np.asarray(r.f), kind="stable")
+    if len(o0) != len(o1) or not np.array_equal(np.asarray(r0.f)[o0], np.asarray(r.f)[o1]):
+        return [("planorder", "permuted plan does not contain the same frequencies")]
+    for k in ("XX", "YY", "XY", "XY_M2"):
+        if k in r._data and k in r0._data:
+            a = np.asarray(r0._data[k])[o0]; b = np.asarray(r._data[k])[o1]
+            if not np.array_equal(a, b, equal_nan=True):
+                j = int(np.nonzero(~((a == b) | (np.isnan(a) & np.isnan(b))))[0][0])
+                out.append(("planorder:" + k, "%s of the bin at f=%r depends on its position in the plan: %r (ascending plan) vs %r (%s)" % (k, float(np.asarray(r0.f)[o0][j]), a[j], b[j], sch)))
+    return out
+
+
 def make_result(rng, cross=None, which=None, kind=None, backend="numba"):
     """Returns (result, analyzer, info). which in {'full','single','equalK'}."""
     from speckit.analysis import SpectrumAnalyzer
@@ -55,8 +108,13 @@ def make_result(rng, cross=None, which=None, kind=None, backend="numba"):
     if which == "equalK":
         # every bin has one segment: Lmin = N
         kw.update(Lmin=N, scheduler=rng.choice(["ltf", "vectorized_ltf"]))
+    elif which == "full" and rng.random() < 0.25:
+        # a user-supplied scheduler callable listing the same bins in another order (single-segment bins no longer first)
+        kw["scheduler"] = rng.choice(["rev:", "rot:"]) + rng.choice(["lpsd", "ltf", "vectorized_ltf"])
+        if kw["scheduler"].endswith(":lpsd"):
+            kw["Lmin"] = 1      # lpsd ignores Lmin; the analyzer validates a user callable's L against it
     data = np.vstack([x, y]) if cross else x
-    an = SpectrumAnalyzer(data, fs, **kw)
+    an = SpectrumAnalyzer(data, fs, **resolve_kw(kw))
     with np.errstate(all="ignore"):
         if which == "single":
             L = rng.choice([64, 100, N, N // 3])
